@@ -35,7 +35,11 @@ MANIFEST = {
             'every coalition of <= t parties must be uniform and identical for all secrets. The uniform low part of _mod\'s mask (r_modb = '
             'random._randbelow): the restart statement after a public rejection is translated from the source and must equal the model\'s '
             '(keep x[:i], draw k-i bits; uniformity of that model is C33), and the exact output distribution of the real _randbelow for '
-            'b = 3,5,6,7 over all bit tapes up to 12 bits must be uniform.',
+            'b = 3,5,6,7 over all bit tapes up to 12 bits must be uniform. Joint view of the n openings of ONE list/array truncation: '
+            'theorems C18_low_masks_range/injective/surjective (theories/MaskBits.v, all f and n): the as-coded map from the f*n shared '
+            'random bits to the n low masks (disjoint slices r_bits[f*j:f*(j+1)]) is a bijection onto [0,2^f)^n, so the masks are uniform '
+            'and mutually independent; tie: the linear response of the real openings of trunc/np_trunc (int and fixed-point, random f, n) to '
+            'every unit bit vector and to random bit vectors must equal low_masks evaluated by vm_compute.',
     'note': 'Per-opening bounds are proved; composition across a whole adaptive program is the union bound over openings, stated not '
             'mechanised. PRF (SHAKE-128) outputs and `secrets` draws being uniform and independent are oracle assumptions; that a '
             'coalition of <= t parties misses one PRSS key / one of the t+1 dealers is taken from C16, not re-proved. Row obligations '
@@ -47,7 +51,7 @@ MANIFEST = {
             'row ignores (conservative: it fails with and without that factor). F-C18-1 (np pow precedence) is fixed in /repo; open findings: _mod and sincos masks (F-C18-2/3) and six functions that '
             'open an un-rerandomised product with threshold 2t for medium/large fields (F-C18-5..10). to_bits on binary fields: rows '
             'assume the precondition a < 2^l (nothing above bit l is secret). The product-opening theorems are toy-size exhaustive '
-            'counts (p=11, m=3, t=1), not a general proof; the per-site rerandomisation obligation is a syntactic data-flow rule. Shares received by the coalition are checked exactly only for the dealing function on small prime fields (see C13/C15 for the general statements). NumPy sites are run only when .venv-np exists.',
+            'counts (p=11, m=3, t=1), not a general proof; the per-site rerandomisation obligation is a syntactic data-flow rule. Shares received by the coalition are checked exactly only for the dealing function on small prime fields (see C13/C15 for the general statements). NumPy sites are run only when .venv-np exists. The bit-layout stream runs single-party (shares are values) with random_bits/_randoms replaced by chosen values; only trunc/np_trunc are covered by it (np_sgn/np_to_bits/np_is_zero bit layouts are not).',
     'technique': 'Coq counting proof of statistical distance + source-regenerated mask table with per-row compiled obligations + simulator correspondence of mask bounds',
 }
 
@@ -983,6 +987,109 @@ def worker_randbelow(cfg):
     return out
 
 
+def worker_maskbits(cfg):
+    """Linear response of the values opened by list/array truncation to each shared random bit (single party, so shares are
+    values): random_bits / np_random_bits return a chosen bit vector and _randoms / _np_randoms return zeros; for every unit
+    bit vector e_b the difference opened(e_b) - opened(0) is reported per element.  The model (Masked.low_masks) says:
+    bit b moves exactly element b div f, by 2^(b mod f) — disjoint slices, so that the n low masks are independent."""
+    sys.argv = [sys.argv[0]]
+    from mpyc.runtime import mpc, Runtime
+    out = {'cases': []}
+
+    class AwList(list):
+        def __await__(self):
+            return self
+            yield
+
+    def fld_of(sftype):
+        return getattr(sftype, 'field', sftype)
+
+    for case in cfg['cases']:
+        kind, l, f, n = case['kind'], case['l'], case['f'], case['n']
+        st = mpc.SecInt(l) if kind in ('int', 'np_int') else mpc.SecFxp(l, f)
+        isnp = kind.startswith('np')
+        if isnp:
+            np = mpc.np if hasattr(mpc, 'np') else None
+            import numpy as np
+        xs = case['xs']
+        state = {'bits': None, 'opened': None}
+        o_rb, o_nrb, o_r, o_nr, o_out = Runtime.random_bits, Runtime.np_random_bits, Runtime._randoms, Runtime._np_randoms, Runtime.output
+
+        def rb(self, sftype, cnt, signed=False):
+            assert cnt == len(state['bits']), (cnt, len(state['bits']))
+            F = fld_of(sftype)
+            return AwList([F(b) for b in state['bits']])
+
+        def nrb(self, sftype, cnt, signed=False):
+            assert cnt == len(state['bits']), (cnt, len(state['bits']))
+            F = fld_of(sftype)
+            return _AwArr(F.array(np.array([int(b) for b in state['bits']], dtype=object)))
+
+        class _AwArr:
+            def __init__(self, a):
+                self.a = a
+
+            def __await__(self):
+                return self.a
+                yield
+
+        def rnd(self, sftype, cnt, bound=None):
+            F = fld_of(sftype)
+            return AwList([F(0)] * cnt)
+
+        def nrnd(self, sftype, cnt, bound=None):
+            F = fld_of(sftype)
+            z = F.array(np.array([0] * cnt, dtype=object))
+            return _AwArr(z) if self.options.no_prss else z
+
+        def outp(self, x, receivers=None, threshold=None, raw=False):
+            fut = o_out(self, x, receivers, threshold, raw)
+            import sys as _s
+            who = _s._getframe(1).f_code.co_name
+            if who in ('trunc', 'np_trunc'):
+                async def w():
+                    v = await fut
+                    vv = v.value if hasattr(v, 'value') and not isinstance(v, list) else v
+                    state['opened'] = [int(z) for z in (vv.flatten().tolist() if hasattr(vv, 'flatten') else [q.value for q in vv])]
+                    return v
+                return w()
+            return fut
+
+        async def one(bits):
+            state['bits'], state['opened'] = bits, None
+            if isnp:
+                a = st.array(np.array(xs))
+                r = mpc.np_trunc(a, f=f) if kind == 'np_int' else mpc.np_trunc(a)
+            else:
+                a = [st(x) for x in xs]
+                r = mpc.trunc(a, f=f) if kind == 'int' else mpc.trunc(a)
+            await mpc.gather(r)
+            return state['opened']
+
+        Runtime.random_bits, Runtime.np_random_bits, Runtime._randoms, Runtime._np_randoms, Runtime.output = rb, nrb, rnd, nrnd, outp
+        res = {'case': case, 'resp': [], 'error': None}
+        try:
+            p_ = fld_of(st).modulus
+            base = mpc.run(one([0] * (f * n)))
+            for b in range(f * n):
+                e = [0] * (f * n)
+                e[b] = 1
+                o = mpc.run(one(e))
+                d = [((u - v + p_ // 2) % p_) - p_ // 2 for u, v in zip(o, base)]
+                res['resp'].append(d)
+            res['extra'] = []
+            for e in case.get('extra', []):
+                o = mpc.run(one(list(e)))
+                res['extra'].append([((u - v + p_ // 2) % p_) - p_ // 2 for u, v in zip(o, base)])
+        except Exception as ex:      # noqa
+            import traceback
+            res['error'] = traceback.format_exc()[-1200:]
+        finally:
+            Runtime.random_bits, Runtime.np_random_bits, Runtime._randoms, Runtime._np_randoms, Runtime.output = o_rb, o_nrb, o_r, o_nr, o_out
+        out['cases'].append(res)
+    return out
+
+
 def spawn(cfg, python, timeout=600):
     env = dict(os.environ)
     repo = os.environ.get('MPYC_REPO', '/repo')
@@ -1163,10 +1270,62 @@ def run(ctx):
         fut_x = ex.submit(spawn, xcfg, python)
         fut_rb = ex.submit(spawn, dict(mode='randbelow', moduli=[3, 5, 6, 7] + ([9, 10, 11, 12] if ctx.tier == 'thorough' else []),
                                        max_bits=ctx.n(12, 14)), python)
+        mb_cases = []
+        for kind in ('int', 'fxp') + (('np_int', 'np_fxp') if have_np else ()):
+            for _ in range(ctx.n(2, 5)):
+                f_ = ctx.rng.choice([3, 4, 5, 6]) if kind.endswith('int') else ctx.rng.choice([4, 8, 16])
+                n_ = ctx.rng.choice([2, 3, 4])
+                xs = [ctx.rng.randrange(-2000, 2000) for _ in range(n_)]
+                if kind.endswith('fxp'):
+                    xs = [x + 0.5 for x in xs]
+                mb_cases.append(dict(kind=kind, l=32, f=f_, n=n_, xs=xs,
+                                     extra=[[ctx.rng.randrange(2) for _ in range(f_ * n_)] for _ in range(3)]))
+        fut_mb = ex.submit(spawn, dict(mode='maskbits', cases=mb_cases), python)
         outs = list(ex.map(lambda c: spawn(c, python), configs))
+        mbout = fut_mb.result()
         touts = [f.result() for f in fut_t]
         xout = fut_x.result()
         rbout = fut_rb.result()
+    # layout of the shared random bits in list/array truncation: measured linear response of the opened values to every
+    # bit (and to random bit vectors) against MaskBits.low_masks evaluated by vm_compute (theorems C18_low_masks_*)
+    if 'error' in mbout:
+        ctx.broken.append({'kind': 'maskbits', 'detail': mbout['error']})
+    else:
+        exprs, idx = [], []
+        for ci, c in enumerate(mbout['cases']):
+            cs = c['case']
+            if c.get('error'):
+                ctx.broken.append({'kind': 'maskbits', 'detail': {'case': cs, 'error': c['error']}})
+                continue
+            vecs = [[1 if i == b else 0 for i in range(cs['f'] * cs['n'])] for b in range(cs['f'] * cs['n'])] + [list(e) for e in cs['extra']]
+            for vi, v in enumerate(vecs):
+                exprs.append('low_masks %d %d [%s]%%Z' % (cs['f'], cs['n'], '; '.join(str(b) for b in v)))
+                idx.append((ci, vi, v))
+        vals = ctx.coq_eval(['MPyC.Masked', 'MPyC.MaskBits'], exprs, chunk=200) if exprs else []
+        nbad = 0
+        for (ci, vi, v), mv in zip(idx, vals):
+            c = mbout['cases'][ci]
+            cs = c['case']
+            nb = cs['f'] * cs['n']
+            obs = c['resp'][vi] if vi < nb else c['extra'][vi - nb]
+            ctx.case({'maskbits': {k: cs[k] for k in ('kind', 'l', 'f', 'n', 'xs')}, 'bits': v}, nontrivial=True,
+                     kind='mask-bit layout %s' % cs['kind'])
+            if isinstance(mv, tuple) and mv and mv[0] == 'ERROR':
+                ctx.broken.append({'kind': 'maskbits-coq', 'detail': str(mv)[:300]})
+                continue
+            if [int(x) for x in mv] != [int(x) for x in obs]:
+                nbad += 1
+                if nbad <= 3:
+                    fn = 'np_trunc' if cs['kind'].startswith('np') else 'trunc'
+                    ctx.violation('mask-bits-layout site=%s' % fn,
+                                  {'what': 'the low masks of the openings of one %s call are not the disjoint-slice function of the shared random bits '
+                                           '(masks of different elements share bits: joint view depends on the secret low bits)' % fn,
+                                   'case': cs, 'bit_vector': v, 'opened_delta_observed': obs, 'model_low_masks': [int(x) for x in mv],
+                                   'replay': 'single party; random_bits returns bit_vector, _randoms returns zeros; opened(bit_vector) - opened(0) per element'},
+                                  found_input=True)
+        ctx.extra['maskbits'] = {'cases': len(mbout['cases']), 'vectors': len(idx), 'mismatches': nbad}
+        ctx.log('mask-bit layout: %d bit vectors over %d list/array truncation calls against MaskBits.low_masks: %d mismatches' % (
+            len(idx), len(mbout['cases']), nbad))
     # r_modb = _randbelow(stype, b) inside _mod must be uniform on [0, b): exact output distribution over all bit tapes
     rb_bad = []
     if 'error' in rbout:
@@ -1456,5 +1615,5 @@ def search(sc, python, ctx, reps=30):
 if __name__ == '__main__':
     if '--worker' in sys.argv:
         cfg = json.loads(sys.stdin.read())
-        r = {'product': worker_product, 'tchange': worker_tchange, 'exact': worker_exact, 'randbelow': worker_randbelow}.get(cfg.get('mode'), worker)(cfg)
+        r = {'product': worker_product, 'tchange': worker_tchange, 'exact': worker_exact, 'randbelow': worker_randbelow, 'maskbits': worker_maskbits}.get(cfg.get('mode'), worker)(cfg)
         print('RESULT ' + json.dumps(r, default=str))
